@@ -8,6 +8,8 @@ import ScyllaVerif.Model.ConnIO
 import ScyllaVerif.Proofs.ConnIO
 import ScyllaVerif.Model.Pool
 import ScyllaVerif.Proofs.Pool
+import ScyllaVerif.Model.Routing
+import ScyllaVerif.Proofs.PoolRefiller
 /-!
 # C10 — when a connection dies every request in flight on it fails promptly; none hangs
 
@@ -501,15 +503,37 @@ theorem break_cause {c : Conn} (hb : c.broken = false) (k : BreakKind) : (step c
   simp only [step, hb, Bool.false_eq_true, if_false]
   rfl
 
-/-- A due tick submits the keep-alive request (an ordinary request: fresh id, queued), arms the timeout, and
-schedules the next tick at most one interval later. -/
-theorem keepalive_tick (k : KaSt) (hb : k.c.broken = false) (hp : k.pending = none) (ht : k.clock ≥ k.next) :
-    (kaTurn k).c = step k.c .submit ∧ (kaTurn k).pending = some (k.c.nextReq, k.clock + k.timeout) ∧
-    (kaTurn k).next ≤ k.clock + k.interval ∧ (kaTurn k).clock = k.clock := by
+/-- A due tick — or a hint (`trigger_keepalive`) at any time — issues the keep-alive request (an ordinary request:
+fresh id; queued, or parked if the submit channel is full), arms the timeout, and schedules the next periodic probe
+at most one interval later (exactly one interval later after a hint: `interval.reset()`); the hint is consumed. -/
+theorem keepalive_tick (k : KaSt) (hb : k.c.broken = false) (hp : k.pending = none)
+    (ht : k.hint = true ∨ k.clock ≥ k.next) :
+    (kaTurn k).c = step k.c (if k.full then .submitFull else .submit) ∧
+    (kaTurn k).pending = some (k.c.nextReq, k.clock + k.timeout) ∧
+    (kaTurn k).next ≤ k.clock + k.interval ∧ (kaTurn k).clock = k.clock ∧
+    (k.hint = true → (kaTurn k).next = k.clock + k.interval ∧ (kaTurn k).hint = false) := by
   unfold kaTurn
-  simp only [hb, Bool.false_eq_true, if_false, hp, ht, if_true]
-  refine ⟨trivial, trivial, ?_, trivial⟩
-  split <;> omega
+  simp only [hb, Bool.false_eq_true, if_false, hp]
+  cases hh : k.hint with
+  | true => simp
+  | false =>
+    have ht' : k.clock ≥ k.next := by
+      rcases ht with h | h
+      · rw [hh] at h; cases h
+      · exact h
+    simp only [Bool.false_eq_true, if_false, ht', if_true]
+    refine ⟨trivial, trivial, ?_, trivial, fun h => by cases h⟩
+    split <;> omega
+
+/-- Without a hint and before the tick is due the keepaliver does nothing; a hint that arrives while a probe is in
+flight stays stored (one permit) and is consumed by the next iteration. -/
+theorem keepalive_idle (k : KaSt) (hp : k.pending = none) (hh : k.hint = false) (ht : k.clock < k.next) :
+    kaTurn k = k := by
+  unfold kaTurn
+  split
+  · rfl
+  · have : ¬ k.clock ≥ k.next := by omega
+    simp [hp, hh, this]
 
 /-- The keep-alive request is in flight, its deadline has passed and nothing (neither a response nor an error)
 has reached the keepaliver: the router ends — with `KeepaliveTimeout` if it was alive — and nobody is left
@@ -541,12 +565,13 @@ theorem keepalive_no_response_breaks (k : KaSt) (h : Inv k.c) (r deadline : Nat)
       inv_broken_waiter _ ((h.step _).step _) (break_sets_broken _ _) r' hw⟩
     exact break_cause hbc _
 
-/-- "Stops answering keep-alives": a tick is due; whatever happens afterwards (`evs`: any events of callers,
+/-- "Stops answering keep-alives": a tick is due (or a hint was given); whatever happens afterwards (`evs`: any events of callers,
 writer, orphaner, reader and server), if no outcome reaches the keepaliver's request and at least `timeout` ms
 pass, the keepaliver's next turn ends the router and nobody is left waiting. Since a tick is due at most
 `interval` after the previous one (`keepalive_tick`), a peer that falls silent is detected within
 `interval + timeout` of virtual time. -/
-theorem keepalive_stall_breaks (k : KaSt) (h : Inv k.c) (hp : k.pending = none) (ht : k.clock ≥ k.next)
+theorem keepalive_stall_breaks (k : KaSt) (h : Inv k.c) (hp : k.pending = none)
+    (ht : k.hint = true ∨ k.clock ≥ k.next)
     (evs : List Ev) (dt : Nat) (hdt : dt ≥ k.timeout)
     (hnr : ∀ o, getCaller (run (kaTurn k).c evs).callers k.c.nextReq ≠ some (.delivered o)) :
     let k1 := kaTurn k
@@ -563,7 +588,7 @@ theorem keepalive_stall_breaks (k : KaSt) (h : Inv k.c) (hp : k.pending = none) 
     rw [e2]
     exact ⟨hb2, fun r' hw => inv_broken_waiter _ (h.run evs) hb2 r' hw⟩
   | false =>
-    obtain ⟨hc, hpend, _, hclk⟩ := keepalive_tick k hb hp ht
+    obtain ⟨hc, hpend, _, hclk, _⟩ := keepalive_tick k hb hp ht
     have hinv : Inv (run k1.c evs) := by
       show Inv (run (kaTurn k).c evs)
       rw [hc]; exact (h.step _).run evs
@@ -571,6 +596,16 @@ theorem keepalive_stall_breaks (k : KaSt) (h : Inv k.c) (hp : k.pending = none) 
       k.c.nextReq (k.clock + k.timeout) hpend
       (by show (kaTurn k).clock + dt ≥ k.clock + k.timeout; rw [hclk]; omega) hnr
     exact ⟨this.1, this.2.2⟩
+
+/-- non-vacuity of the hint arm: long before the tick is due a hint makes the keepaliver probe at once and re-bases
+the schedule; the stalled peer is then detected `timeout` later. -/
+example :
+    let k0 : KaSt := { c := run Conn.init [.submit, .writerTake], interval := 30000, timeout := 300, clock := 500,
+                       next := 30000, hint := true }
+    let k1 := kaTurn k0
+    let k2 := kaTurn { k1 with c := run k1.c [.writerTake], clock := 800 }
+    k1.pending = some (1, 800) ∧ k1.next = 30500 ∧ k1.hint = false ∧ k2.c.cause = some .keepaliveTimeout ∧
+      (kaTurn { k0 with hint := false }).pending = none := by decide +kernel
 
 /-- non-vacuity: one user request in flight, the keep-alive is written too, the server answers neither. -/
 example :
@@ -582,6 +617,36 @@ example :
       getCaller k2.c.callers 0 = some (.delivered (.err (.broken .keepaliveTimeout))) := by decide +kernel
 
 /-! ## 7. the pool keeps working through the remaining connections (`Model/Pool.lean`) -/
+
+/-- NOT definitional — over the full refiller model of `Model/Routing.lean` (shared with C12: shard buckets,
+`maybe_reshard` clearing the buckets without publishing, excess connections, the arms of
+`handle_ready_connection` that drop or park a connection without publishing, `remove_connection` with its
+bucket / excess / already-gone arms): after ANY sequence of ready / broken connection events, what the pool offers
+to routing is exactly what the refiller holds in its shard buckets. This is what licenses `Model/Pool.lean`'s
+`shared := conns'` (the id-level abstraction used for the liveness bookkeeping below). -/
+theorem refiller_publishes_what_it_holds (size : ScyllaVerif.Routing.PoolSize)
+    (hsz : ScyllaVerif.PoolRefiller.SizePos size) (evts : List ScyllaVerif.Routing.PoolEvt)
+    (rf : ScyllaVerif.Routing.Refiller) (h : (ScyllaVerif.Routing.Refiller.init size).run evts = some rf) :
+    ScyllaVerif.PoolRefiller.offered rf = ScyllaVerif.PoolRefiller.held rf :=
+  ScyllaVerif.PoolRefiller.published_is_held size hsz evts rf h
+
+/-- Composition with the connection model: the pool learns of a death through `error_sender`, which the router
+fires only AFTER the handlers were failed and the submit channel was drained (`router` 1595-1618; in the model the
+cause is recorded by `doBreak` only). So whenever a death can be reported (`cause = some k`, the enabling condition
+of `Pool.die`), the router has ended and every caller of that connection already has its outcome (only a caller in
+the push window is still on its way, and it gets the error from the drain loop). -/
+theorem death_report_means_callers_completed (c : Conn) (h : Inv c) (k : BreakKind) (hk : c.cause = some k) :
+    c.broken = true ∧ ∀ r, getCaller c.callers r = some .waiting → r ∈ c.permits := by
+  have hb : c.broken = true := by
+    cases hb : c.broken with
+    | true => rfl
+    | false => have := h.map.alive hb; rw [hk] at this; cases this
+  exact ⟨hb, fun r hw => inv_broken_waiter c h hb r hw⟩
+
+theorem death_report_reachable (evs : List Ev) (k : BreakKind) (hk : (run Conn.init evs).cause = some k) :
+    (run Conn.init evs).broken = true ∧
+    ∀ r, getCaller (run Conn.init evs).callers r = some .waiting → r ∈ (run Conn.init evs).permits :=
+  death_report_means_callers_completed _ (Inv.reachable evs) k hk
 
 section pool
 open ScyllaVerif.Pool
